@@ -132,6 +132,10 @@ Announce(s, c) ==
            IF ~ok THEN <<>>
            ELSE LET e == NumI(s) + 1 IN
                 << ATop(c.n, "D", c.d) >> \o NewAnn(s, "I", e, NoVal) \o << ARef(e, c.d), ATop(c.n, "I", e) >>
+      [] c.op = "set_top_dm" ->
+           IF ~ok THEN <<>>
+           ELSE LET e == NumI(s) + 1 IN
+                << ATop(c.n, "D", c.d) >> \o NewAnn(s, "I", e, NoVal) \o << ARef(e, c.d), ATop(c.n, "I", e), ASet("I", e, "name", c.name) >>
       [] c.op \in {"set_item", "set_name"} ->
            LET key == IF c.op = "set_name" THEN "name" ELSE c.key IN
            IF ~ok THEN <<>>
@@ -199,7 +203,7 @@ TrimTo(m, s) ==
     [m EXCEPT !.data = [k \in DOMAIN @ |-> SubSeq(@[k], 1, CountOf(s, k))],
               !.ref = SubSeq(@, 1, NumI(s)), !.top = SubSeq(@, 1, NumN(s))]
 IROps == {"new", "create", "create_n", "create_child", "add", "remove", "remove_from", "reorder", "connect",
-          "disconnect", "disconnect_from", "reorder_pins", "set_ref", "set_top", "set_top_def", "set_item", "del_item",
+          "disconnect", "disconnect_from", "reorder_pins", "set_ref", "set_top", "set_top_def", "set_top_dm", "set_item", "del_item",
           "pop_item", "set_name", "del_name", "set_name_none", "set_attr", "set_lower", "set_dir", "set_default", "reset"}
 C19_Suffices(s, c) ==
     LET res == Apply(s, c)
